@@ -188,6 +188,17 @@ def _is_reflected(cls, args, result):
         return False
 
 
+def _has_argreduce(a, depth=0):
+    """True when the funsor argument ``a`` contains a Unary argmax/argmin anywhere (read from fields only)."""
+    if isinstance(a, (tuple, frozenset)):
+        return depth < 12 and any(_has_argreduce(x, depth + 1) for x in a)
+    if not hasattr(a, "_ast_values"):
+        return False
+    if term._name(type(a)) == "Unary" and type(a.op).__name__ in ("ArgmaxOp", "ArgminOp"):
+        return True
+    return depth < 12 and any(_has_argreduce(x, depth + 1) for x in a._ast_values)
+
+
 def _features(cls, args, what):
     name = term._name(cls)
     f = {"cls": name, "what": what, "arg_classes": [term._name(type(a)) if hasattr(a, "inputs") else type(a).__name__ for a in args][:6]}
@@ -195,6 +206,7 @@ def _features(cls, args, what):
     f["ops"] = [str(o) for o in ops_][:3]
     f["op0"] = f["ops"][0] if f["ops"] else None
     f["has_boolean_data_tensor_arg"] = any(getattr(getattr(a, "data", None), "dtype", None) == bool for a in args)
+    f["contains_argreduce"] = any(_has_argreduce(a) for a in args)
     return f
 
 
